@@ -68,6 +68,18 @@ def _build(case):
     obj = getattr(cisco_acl, case["cls"])(case["text"], **dict(case["kwargs"]))
     if case.get("items"):
         obj.items = list(case["items"])
+    if case.get("attach_members") and case["cls"] in ("Ace", "Acl", "AceGroup"):
+        # address-group members of ACEs (different ones on the source and on the destination side)
+        import random  # pylint: disable=import-outside-toplevel
+
+        from vcheck.checks.C13 import rand_cube, spell  # pylint: disable=import-outside-toplevel
+
+        rng = random.Random(case["rseed"] + 1)
+        aces = [obj] if case["cls"] == "Ace" else [i for i in _flat(obj.items) if type(i).__name__ == "Ace"]
+        for ace in aces:
+            for addr in (ace.srcaddr, ace.dstaddr):
+                if addr.addrgroup:
+                    addr.items = [spell(rng, rand_cube(rng, 1), ace.platform, "Address") for _ in range(rng.randint(1, 3))]
     return obj
 
 
@@ -395,6 +407,8 @@ def gen_case(rng):
         from vcheck.checks.C13 import rand_cube, spell  # pylint: disable=import-outside-toplevel
 
         case["items"] = [spell(rng, rand_cube(rng, 2), base["kwargs"]["platform"], "Address") for _ in range(rng.randint(1, 3))]
+    if cls in ("Ace", "Acl", "AceGroup") and ("object-group" in base["text"] or "addrgroup" in base["text"]):
+        case["attach_members"] = True
     menu = MUTATIONS.get(cls, [])
     case["mutations"] = [rng.choice(menu) for _ in range(rng.randint(1, 4))] if menu else []
     if cls in ("Acl", "AceGroup", "AddrGroup") and rng.random() < 0.3:
